@@ -264,6 +264,12 @@ def plan(tier, seed):
     pl.cases = resolver_cases()
     pl.canaries = [canary()]
     pl.finite = [("C10-U/uniform-loops", lambda: uniform.check(LOOPS))]
+    ntok = 4 if tier == "quick" else 6
+
+    def net():
+        from vfkit import bounded as _b
+        return _b.run_native("c10_resolver", {"max_tokens": ntok, "known": _b.known_for("C10", "C10-B")})
+    pl.bounded = [("C10-B/resolved tree node by node, fixed point, fresh vs long-lived resolver (safety net)", net)]
     from vfkit import lean as _lean
     pl.finite.append(("A5/Lean re-check of the lifting lemmas for operand runs", _lean.lemma_check))
     pl.functions = ["luqum.utils.UnknownOperationResolver." + f for f in
